@@ -239,3 +239,70 @@ struct DumpParser {
     return false;
   }
 };
+
+// ---- instrumented allocator: call log, ledger of live blocks, failure schedule ----
+#include <map>
+struct SpyAllocator : ArduinoJson::Allocator {
+  struct Call { char kind; size_t a, b; bool ok; };   // 'a' size; 'r' old,new; 'd' size
+  std::vector<Call> log;
+  std::map<void*, size_t> live;
+  size_t requested = 0;     // sum of sizes asked through allocate / growing reallocate
+  size_t live_bytes = 0, peak = 0;
+  size_t calls = 0;         // allocate + reallocate calls (the ones that may fail)
+  std::vector<bool> fail;   // fail[k] => k-th (0-based) failable call returns null
+  long fail_from = -1;      // >= 0: every failable call with index >= fail_from fails
+  bool misuse = false;      // deallocate/reallocate of a block that is not live
+  bool shouldFail(bool growing) {
+    size_t k = calls++;
+    if (!growing) return false;   // a shrinking reallocate never fails
+    if (fail_from >= 0 && (long)k >= fail_from) return true;
+    return k < fail.size() && fail[k];
+  }
+  void* allocate(size_t n) override {
+    bool f = shouldFail(true);
+    requested += n;
+    if (f) { log.push_back({'a', n, 0, false}); return nullptr; }
+    void* p = malloc(n ? n : 1);
+    live[p] = n; live_bytes += n; if (live_bytes > peak) peak = live_bytes;
+    log.push_back({'a', n, 0, true});
+    return p;
+  }
+  void deallocate(void* p) override {
+    if (!p) { log.push_back({'d', 0, 0, true}); return; }
+    auto it = live.find(p);
+    if (it == live.end()) { misuse = true; log.push_back({'d', 0, 0, false}); return; }
+    live_bytes -= it->second;
+    log.push_back({'d', it->second, 0, true});
+    live.erase(it);
+    free(p);
+  }
+  void* reallocate(void* p, size_t n) override {
+    size_t old = 0;
+    if (p) {
+      auto it = live.find(p);
+      if (it == live.end()) { misuse = true; log.push_back({'r', 0, n, false}); return nullptr; }
+      old = it->second;
+    }
+    bool f = shouldFail(n > old);
+    if (n > old) requested += n - old;
+    if (f) { log.push_back({'r', old, n, false}); return nullptr; }
+    // always move the block so that stale pointers are caught by ASan
+    void* q = malloc(n ? n : 1);
+    if (p) { memcpy(q, p, old < n ? old : n); live.erase(p); free(p); live_bytes -= old; }
+    live[q] = n; live_bytes += n; if (live_bytes > peak) peak = live_bytes;
+    log.push_back({'r', old, n, true});
+    return q;
+  }
+  std::string logString() const {
+    std::string s;
+    for (auto& c : log) {
+      s += c.kind;
+      s += std::to_string(c.a);
+      if (c.kind == 'r') s += ">" + std::to_string(c.b);
+      if (!c.ok) s += "!";
+      s += ",";
+    }
+    return s;
+  }
+  ~SpyAllocator() { for (auto& kv : live) free(kv.first); }
+};
